@@ -117,29 +117,117 @@ def init_contig_rules(rep, f):
 
 
 # ---------------------------------------------------------------- R-INTERRUPT-STOP
-class InterruptMon(mon.Monitor):
-    """state = (in_interrupt_arm, status_is_user_interrupt)"""
-    init = ((False, False),)
+FLAGS4 = ("Continue", "Interrupt", "ModifiedSolution", "XOut")
 
-    def __init__(self, fn, matches):
+
+def flag_of_pattern(p):
+    """set of ControlFlag variants a pattern accepts (None = any)"""
+    k = p.get("k")
+    if k in ("PWild",) or (k == "PBind" and not p.get("sub")):
+        return None
+    if k == "PBind" and p.get("sub"):
+        return flag_of_pattern(p["sub"])
+    if k in ("PRef", "PDeref") and p.get("pat") is not None:
+        return flag_of_pattern(p["pat"])
+    if k == "POr":
+        out = set()
+        for q in p.get("pats", []):
+            r = flag_of_pattern(q)
+            if r is None:
+                return None
+            out |= r
+        return out
+    d = p.get("def") or p.get("ctor_of") or ""
+    if d.startswith(FLAG):
+        return {d[len(FLAG):]}
+    return None
+
+
+class InterruptMon(mon.Monitor):
+    """state = (answer of the last callback in this iteration: None | one of the four flags, status is UserInterrupt).
+    At a callback site the state forks into the four answers; every test of the answer (match arms, `flag == X`,
+    `if let X(..) = flag`, matches!) prunes the branches the assumed answer cannot take.  Under the answer Interrupt:
+    no IVP / SolOut call, no further loop iteration, and the function is left with status UserInterrupt."""
+    init = ((None, False),)
+
+    def __init__(self, fn, body):
         super().__init__()
         self.fn = fn
-        self.matches = matches
-        self.arms_seen = 0
+        self.flagvars = set()
+        for l in tast.find(body, lambda x: x.get("k") == "Let" and x["pat"].get("k") == "PBind" and x.get("init") is not None):
+            i0 = l["init"]
+            while i0.get("k") in ("DropTemps", "Paren"):
+                i0 = i0["e"]
+            if i0.get("k") == "MethodCall" and i0.get("def") == SOLOUT:
+                self.flagvars.add(l["pat"]["id"])
+        self.sites = set()
+        self.interrupt_sites = set()
+
+    def is_answer(self, e):
+        while e is not None and e.get("k") in ("DropTemps", "Paren", "AddrOf") or (e is not None and e.get("k") == "Unary" and e.get("op") == "Deref"):
+            e = e["e"]
+        if e is None:
+            return False
+        if e.get("k") == "MethodCall" and e.get("def") == SOLOUT:
+            return True
+        return e.get("k") == "Path" and e.get("res") == "local" and e.get("id") in self.flagvars
+
+    def cond_flags(self, c):
+        """(set of answers under which the condition holds) for a test of the answer, else None"""
+        while c.get("k") in ("DropTemps", "Paren"):
+            c = c["e"]
+        if c.get("k") == "Unary" and c.get("op") == "Not":
+            r = self.cond_flags(c["e"])
+            return None if r is None else set(FLAGS4) - r
+        if c.get("k") == "Binary" and c["op"] in ("Eq", "Ne"):
+            for a, b in ((c["l"], c["r"]), (c["r"], c["l"])):
+                bb = b
+                while bb.get("k") in ("DropTemps", "Paren", "AddrOf"):
+                    bb = bb["e"]
+                d = bb.get("def") or ""
+                if self.is_answer(a) and d.startswith(FLAG) and bb.get("k") in ("Path", "Call"):
+                    s_ = {d[len(FLAG):]}
+                    return s_ if c["op"] == "Eq" else set(FLAGS4) - s_
+        if c.get("k") == "LetExpr" and self.is_answer(c["init"]):
+            return flag_of_pattern(c["pat"]) or set(FLAGS4)
+        return None
 
     def step(self, st, ev):
         kind, n = ev[0], ev[1]
-        intr, ok = st
-        if kind == "arm" and any(n is m for m in self.matches):
-            fl = arm_flag(n["arms"][ev[2]])
+        fl, ok = st
+        if kind == "node" and n.get("k") == "MethodCall" and n.get("def") == SOLOUT:
+            self.sites.add(id(n))
+            return tuple((f_, False) for f_ in FLAGS4)
+        if kind == "arm" and self.is_answer(n["scrut"]) and fl is not None:
+            arms = n["arms"]
+            j = ev[2]
+            acc = flag_of_pattern(arms[j]["pat"])
+            # an earlier arm without a guard that accepts the answer takes it first
+            for a in arms[:j]:
+                pa = flag_of_pattern(a["pat"])
+                if a.get("guard") is None and (pa is None or fl in pa):
+                    return ()
+            if acc is not None and fl not in acc:
+                return ()
             if fl == "Interrupt":
-                return ((True, False),)
-            if fl is None and n["arms"][ev[2]]["pat"]["k"] == "PWild":
-                return ((True, False), st)
+                self.interrupt_sites.add(id(n))
             return (st,)
+        if kind in ("then", "else") and n.get("k") == "If" and fl is not None:
+            cf = self.cond_flags(n["cond"])
+            if cf is not None:
+                holds = fl in cf
+                if (kind == "then") != holds:
+                    return ()
+                if fl == "Interrupt":
+                    self.interrupt_sites.add(id(n))
+                return (st,)
         if kind == "else" and is_solout_iflet(n):
             return ()
-        if not intr:
+        if kind == "node" and n.get("k") == "Path" and (n.get("def") or "") == "status::Status::UserInterrupt" and fl != "Interrupt":
+            self.violate("R-INTERRUPT-STOP:%s:stray-status" % self.fn, "Status::UserInterrupt is produced on a path where the callback did not answer Interrupt", n, self.cur_trail)
+        if fl != "Interrupt":
+            if kind in ("loop_head", "latch"):
+                return ((None, False),)
             return (st,)
         if kind == "node":
             k = n.get("k")
@@ -149,51 +237,37 @@ class InterruptMon(mon.Monitor):
                     self.violate("R-INTERRUPT-STOP:%s:work-after-interrupt:%s" % (self.fn, d.split("::")[-1]),
                                  "%s is reachable after the callback returned Interrupt" % d, n, self.cur_trail)
             if k == "Path" and (n.get("def") or "") == "status::Status::UserInterrupt":
-                return ((True, True),)
+                return (("Interrupt", True),)
             if k == "Assign" and n["l"].get("k") == "Path" and n["l"].get("ty") == "status::Status":
                 r = n["r"]
                 isui = r.get("k") == "Path" and r.get("def") == "status::Status::UserInterrupt"
-                return ((True, isui),)
+                return (("Interrupt", isui),)
         if kind in ("return", "fn_end"):
             if not ok:
-                self.violate("R-INTERRUPT-STOP:%s:status" % self.fn, "a path from an Interrupt arm returns without status UserInterrupt", n, self.cur_trail)
+                self.violate("R-INTERRUPT-STOP:%s:status" % self.fn, "a path on which the callback answered Interrupt returns without status UserInterrupt", n, self.cur_trail)
         if kind in ("loop_head", "latch"):
-            self.violate("R-INTERRUPT-STOP:%s:continues" % self.fn, "a path from an Interrupt arm reaches another loop iteration", n, self.cur_trail)
+            self.violate("R-INTERRUPT-STOP:%s:continues" % self.fn, "a path on which the callback answered Interrupt reaches another loop iteration", n, self.cur_trail)
             return ()
         return (st,)
 
 
 def interrupt_rule(rep, f):
-    n_arms = 0
+    n_sites = 0
     for mod, ty in SOLVERS:
         fn = solve_fn(mod, ty)
         body = f.body(fn)
-        ms = solout_matches(body["body"])
-        arms = [(m, a) for m in ms for a in m["arms"] if arm_flag(a) == "Interrupt"]
-        n_arms += len(arms)
-        if len(ms) < 2 or len(arms) != len(ms):
-            rep.violation("R-INTERRUPT-STOP", "R-INTERRUPT-STOP:%s:arms" % fn,
-                          "%d callback matches but %d explicit Interrupt arms" % (len(ms), len(arms)), body.get("sp"))
-        m = InterruptMon(fn, ms)
+        m = InterruptMon(fn, body["body"])
         mon.Runner(m).run_fn(body)
+        n_sites += len(m.sites)
         for key, msg, node, trail in m.violations:
             rep.violation("R-INTERRUPT-STOP", key, msg, node.get("sp") if isinstance(node, dict) else None)
-        # converse: UserInterrupt only inside Interrupt arms
-        stray = []
-        for node, parents in tast.find_with_parents(body["body"], lambda x: x.get("k") == "Path" and x.get("def") == "status::Status::UserInterrupt"):
-            inside = False
-            for mm, a in arms:
-                if tast.contains(a["body"], lambda x: x is node):
-                    inside = True
-            if not inside:
-                stray.append(node)
-        if stray:
-            rep.violation("R-INTERRUPT-STOP", "R-INTERRUPT-STOP:%s:stray-status" % fn,
-                          "Status::UserInterrupt is produced outside an Interrupt arm", stray[0].get("sp"))
-        if not m.violations and not stray:
-            rep.ok("R-INTERRUPT-STOP", "R-INTERRUPT-STOP:%s" % fn, "%d Interrupt arm(s): no IVP/SolOut call before return, status UserInterrupt" % len(arms))
-    if n_arms < 12:
-        rep.inconc("R-INTERRUPT-STOP", "R-INTERRUPT-STOP:floor", "only %d Interrupt arms found (expected 12)" % n_arms)
+        if not m.violations:
+            if len(m.sites) < 2:
+                rep.inconc("R-INTERRUPT-STOP", "R-INTERRUPT-STOP:%s:sites" % fn, "only %d callback site(s) found (expected the initial and the per-step one)" % len(m.sites))
+            else:
+                rep.ok("R-INTERRUPT-STOP", "R-INTERRUPT-STOP:%s" % fn, "%d callback site(s): under the answer Interrupt no IVP/SolOut call, no further iteration, status UserInterrupt; UserInterrupt is produced under no other answer" % len(m.sites))
+    if n_sites < 12:
+        rep.inconc("R-INTERRUPT-STOP", "R-INTERRUPT-STOP:floor", "only %d callback sites found (expected 12)" % n_sites)
 
 
 # ---------------------------------------------------------------- R-MODIFIED-REEVAL
